@@ -57,13 +57,10 @@ def compare_full(ctx: Ctx, rule: str, construct: str, func: Func, spec_src: str,
         ctx.ob(rule, construct, False, f"function body left the analysable fragment ({e}); behaviour cannot be confirmed", func.where)
         return False
     tree = ast.parse(spec_src.strip())
-    sb = terms.Builder(None, None, dict(env or {}), **{k: v for k, v in opts.items() if k in ("positive", "erase_casts", "erase_validation", "keep_raises", "track_locals", "track_effects", "summarise_loops", "erase_persistence")})
-    # names that are modules in the function's own module are modules in its table too (`nf.f(x)` is a function call)
-    try:
-        mod = func.module
-        sb.module_names = {n for n in list(mod.imports) if (ctx.prog.resolve(mod.name, n) or ("",))[0] in ("module", "ext")}
-    except Exception:
-        sb.module_names = set()
+    # the table is read in the resolution context of the function it describes (same module aliases, same callees), without inlining
+    sopts = {k: v for k, v in opts.items() if k in ("positive", "erase_casts", "erase_validation", "keep_raises", "track_locals", "track_effects",
+                                                   "summarise_loops", "erase_persistence", "bind_args")}
+    sb = terms.Builder(ctx.prog, func, dict(env or {}), inline_depth=0, inline_new=0, **sopts)
     spec = sb.run(strip_doc(tree.body[0].body))
     none = terms.app("const", "None")
     code = none if code is None else code
